@@ -210,6 +210,6 @@ def run(ctx: Ctx, rep: Report, tier: str):
     from rules.common import entry_paths_match_for_display
     rep.rule("C03.R16", "a case-only rename is a change: SyncEntry.paths_match compares sync_path with path through paths_match(..., for_display=True)", 1)
     section(rep, lambda: entry_paths_match_for_display(ctx, rep, "C03.R16"))
-    from rules.decisions import decision_table
-    rep.rule("C03.R17", "decision table of rename handling: every action site of handle_rename and check_rename_is_delete_create is reached under exactly the recorded path condition", 29)
-    section(rep, lambda: decision_table(ctx, rep, "C03.R17", ['SyncManager.handle_rename', 'SyncManager.check_rename_is_delete_create']))
+    from rules.decisions import decision_table, table_sites
+    rep.rule("C03.R17", "decision table of rename handling and of the transfer functions (upload_synced, _create_synced, download_changed, temp files, update_entry): every action site is reached under exactly the recorded path condition and on the recorded side", table_sites("C03"))
+    section(rep, lambda: decision_table(ctx, rep, "C03.R17", "C03"))
